@@ -167,6 +167,9 @@ def run_hash_case(h1, h2, two, allow):
 
 
 # ---------------------------------------------------------------- the flag equals 'strict re-parse is refused'
+TLE = "extension-definition--88888888-f010-4473-83ec-1edf84858f4c"
+
+
 def _sites():
     mal = {"type": "malware", "spec_version": "2.1", "id": "malware--" + UU, "created": "2020-01-01T00:00:00.000Z", "modified": "2020-01-01T00:00:00.000Z",
            "name": "m", "is_family": False, "external_references": [{"source_name": "s", "external_id": "1", "hashes": {"MD5": "0" * 32}}],
@@ -184,7 +187,10 @@ def _sites():
     rel20 = {k: v for k, v in rel.items() if k != "spec_version"}
     rep20 = {"type": "report", "id": "report--" + UU, "created": "2020-01-01T00:00:00.000Z", "modified": "2020-01-01T00:00:00.000Z", "name": "r",
              "published": "2020-01-01T00:00:00Z", "labels": ["threat-report"], "object_refs": ["malware--" + UU]}
-    bases = [("2.1", mal), ("2.1", f), ("2.0", od20), ("2.1", b21), ("2.1", rel), ("2.0", rel20), ("2.0", rep20)]
+    md21 = {"type": "marking-definition", "spec_version": "2.1", "id": "marking-definition--" + UU, "created": "2020-01-01T00:00:00.000Z",
+            "definition_type": "statement", "definition": {"statement": "s"}}
+    md20 = {k: v for k, v in md21.items() if k != "spec_version"}
+    bases = [("2.1", mal), ("2.1", f), ("2.0", od20), ("2.1", b21), ("2.1", rel), ("2.0", rel20), ("2.0", rep20), ("2.1", md21), ("2.0", md20)]
     inj = [
         # (base index, description, path, value, insert-first)
         (0, "top-level custom property", "x_foo", 1), (0, "custom property in embedded object", "external_references.0.x_foo", 1),
@@ -214,6 +220,19 @@ def _sites():
         # names registered in another category (extensions, marking kinds) are not object types
         (4, "relationship to a name registered as an extension", "target_ref", "archive-ext--" + UU), (4, "relationship from a marking kind", "source_ref", "tlp--" + UU),
         (5, "2.0 relationship to a name registered as an extension", "target_ref", "ntfs-ext--" + UU),
+        # STIX 2.0 has no extension definitions: an 'extensions' member on a 2.0 object is itself custom and licenses nothing
+        (5, "top-level custom property on a 2.0 SRO", "x_foo", 1),
+        (5, "2.0 relationship with a toplevel-property-extension entry", "extensions", {TLE: {"extension_type": "toplevel-property-extension"}}),
+        (6, "2.0 report with a toplevel-property-extension entry", "extensions", {TLE: {"extension_type": "toplevel-property-extension"}}),
+        (6, "top-level custom property on a 2.0 SDO", "x_foo", 1),
+        # embedded types carry no extensions: such a member is custom and licenses nothing
+        (0, "embedded object with an extensions member and a custom property", "external_references.0",
+         {"source_name": "s", "external_id": "1", "extensions": {TLE: {"extension_type": "toplevel-property-extension"}}, "x_foo": 1}),
+        (0, "embedded object with an extensions member", "kill_chain_phases.0",
+         {"kill_chain_name": "k", "phase_name": "p", "extensions": {TLE: {"extension_type": "toplevel-property-extension"}}}),
+        # custom content inside the definition of a marking definition
+        (7, "custom property inside a 2.1 statement marking", "definition.x_foo", 1), (7, "false-y custom property inside a 2.1 statement marking", "definition.x_e", ""),
+        (8, "custom property inside a 2.0 statement marking", "definition.x_foo", 1),
     ]
     # custom properties given as null / [] are dropped: no custom content results (DROPPED sites carry no injection)
     return bases, inj
@@ -258,6 +277,40 @@ def flag_iff_strict_refuses(i: int, j: int) -> bool:
         ok = run_inject_case(i, j) and run_inject_case(i, j, neutral=True)
     V.reached()
     return ok
+
+
+# ---- members named like the constructors' own flags are content, not switches
+RESERVED = ["allow_custom", "interoperability", "custom_properties"]
+RES_SITES = [(0, ""), (0, "external_references.0."), (0, "kill_chain_phases.0."), (1, ""), (1, "extensions.ntfs-ext."), (1, "extensions.ntfs-ext.alternate_data_streams.0."),
+             (7, "definition."), (8, "definition."), (2, "objects.0."), (3, "objects.0."), (4, ""), (5, "")]
+
+
+def reserved_names(si: int, ni: int, with_custom: bool) -> bool:
+    """
+    pre: 0 <= si < len(RES_SITES) and 0 <= ni < 3
+    post: _
+    """
+    si, ni, with_custom = pick(si, len(RES_SITES)), pick(ni, 3), bool(with_custom)
+    with Native():
+        ok = run_reserved_case(si, ni, with_custom)
+    V.reached()
+    return ok
+
+
+def run_reserved_case(si, ni, with_custom):
+    """a member named allow_custom / interoperability / custom_properties anywhere in strictly parsed content (alone, or next to a custom
+    property it might 'license') never switches anything on: the parse is refused"""
+    bi, prefix = RES_SITES[si]
+    ver, base = BASES[bi]
+    name = RESERVED[ni]
+    doc = set_path(base, prefix + name, {"x_foo": 1} if name == "custom_properties" else True)
+    if with_custom and name != "custom_properties":
+        doc = set_path(doc, prefix + "x_foo", 1)
+    try:
+        o = stix2.parse(doc, allow_custom=False, version=ver if doc["type"] != "bundle" else None)
+    except (STIXError, ValueError, TypeError):
+        return True
+    return False
 
 
 NEUTRAL_EXT = {"extension-definition--99999999-f010-4473-83ec-1edf84858f4c": {"extension_type": "property-extension", "q": 1}}
